@@ -23,7 +23,7 @@ import (
 
 // C17 — a read-only mount shows exactly the bundle (E2: exhaustive observation battery per tree, both mount modes).
 
-var c17paths = []string{"a", "d/b", "d/e/c", "d/e/f", "g/h", "d/i", "d/a-much-longer-file-name"} // names of different lengths: directory entries of different sizes
+var c17paths = []string{"a", "d/b", "d/e/c", "d/e/f", "g/h", "d/i", "d/c-much-longer-file-name"} // a long name listed between short ones: directory entries of different sizes
 
 type dirent struct {
 	Inode  fuseops.InodeID
